@@ -107,6 +107,11 @@ def run_small(spec, out):
     forms = {
         'let': lambda t, d: canon(b.let(dict(d), refs[t])),
         'cofactor': lambda t, d: canon(b.cofactor(refs[t], dict(d))),
+        # keys given as levels (documented for the dd.bdd manager)
+        'cofactor(levels)': lambda t, d: canon(b.cofactor(
+            refs[t], {b.level_of_var(x): v for x, v in d.items()})),
+        'let(levels)': lambda t, d: canon(b.let(
+            {b.level_of_var(x): v for x, v in d.items()}, refs[t])),
         'autoref.let': lambda t, d: canon(
             A.let(dict(d), funcs[t]).node, 'ar'),
         'Function.let': lambda t, d: canon(funcs[t].let(**d).node, 'ar'),
